@@ -283,6 +283,7 @@ class QueryPlanner:
                         len(query_info2['mdb_entities']) > 0
                 ):
                     # need to execute in planner
+                    self.check_not_correlated(node)
 
                     node.parentheses = False
                     last_step = self.plan_select(node)
@@ -292,6 +293,31 @@ class QueryPlanner:
                     return node2
 
         return find_selects
+
+    def check_not_correlated(self, query):
+        # A nested select that is planned as steps of its own is executed before, and apart from, the outer query:
+        # it cannot see the outer tables. A qualified column whose qualifier is no table of the nested select
+        # refers to the outer query (correlated sub-query) - such a step could never be carried out.
+        tables = set()
+        columns = []
+
+        def collect(node, is_table=False, **kwargs):
+            if is_table and isinstance(node, Identifier):
+                name = node.alias.parts[-1] if node.alias is not None else node.parts[-1]
+                if isinstance(name, str):
+                    tables.add(name.lower())
+            elif is_table and getattr(node, 'alias', None) is not None:
+                tables.add(str(node.alias.parts[-1]).lower())
+            elif isinstance(node, Identifier) and len(node.parts) > 1:
+                columns.append(node)
+
+        query_traversal(query, collect)
+        for column in columns:
+            qualifier = column.parts[-2]
+            if isinstance(qualifier, str) and qualifier.lower() not in tables:
+                raise PlanningException(
+                    f'Correlated sub-query is not supported: {column.to_string()} refers to a table of the outer query'
+                )
 
     def plan_select_identifier(self, query):
         # query_info = self.get_query_info(query)
